@@ -15,6 +15,9 @@ import (
 	"sort"
 	"strings"
 
+	"github.com/sirupsen/logrus"
+
+	"github.com/projectcalico/calico/felix/cachingmap"
 	dt "github.com/projectcalico/calico/felix/deltatracker"
 )
 
@@ -47,6 +50,9 @@ type dump struct {
 	gets                 [][4]*int
 	ub                   int
 	poisoned             bool
+	calls                [][]kv
+	real                 []kv
+	nerr                 int
 }
 
 // tracker is the common face of the map tracker and the set tracker.  The four views are
@@ -62,6 +68,8 @@ type tracker interface {
 	ReplaceIter(kvs []kv, fail bool) error
 	IterUpd(f func(k, v int) dt.IterAction)
 	IterDel(f func(k int) dt.IterAction)
+	IterBatchUpd(f func(ks, vs []int) (int, error)) bool
+	IterBatchDel(f func(ks []int) (int, error)) bool
 	Dump(univ []int) dump
 }
 
@@ -100,6 +108,14 @@ func (t *mapT) ReplaceIter(kvs []kv, fail bool) error {
 }
 func (t *mapT) IterUpd(f func(k, v int) dt.IterAction) { t.pu.Iter(f) }
 func (t *mapT) IterDel(f func(k int) dt.IterAction)    { t.pd.Iter(f) }
+func (t *mapT) IterBatchUpd(f func(ks, vs []int) (int, error)) bool {
+	t.pu.IterBatched(f)
+	return true
+}
+func (t *mapT) IterBatchDel(f func(ks []int) (int, error)) bool {
+	t.pd.IterBatched(f)
+	return true
+}
 
 func optp(v int, ok bool) *int {
 	if !ok {
@@ -171,6 +187,10 @@ func (t *setT) IterUpd(f func(k, v int) dt.IterAction) {
 	t.pu.Iter(func(k int) dt.IterAction { return f(k, 0) })
 }
 func (t *setT) IterDel(f func(k int) dt.IterAction) { t.pd.Iter(f) }
+
+// the set views have no IterBatched
+func (t *setT) IterBatchUpd(f func(ks, vs []int) (int, error)) bool { return false }
+func (t *setT) IterBatchDel(f func(ks []int) (int, error)) bool     { return false }
 
 func optb(ok bool) *int {
 	if !ok {
@@ -244,220 +264,557 @@ func (d dump) coq() string {
 	if d.poisoned {
 		dl = -999
 	}
-	return fmt.Sprintf("(Obs %s (%d)%%Z %s (%d)%%Z %s (%d)%%Z %s (%d)%%Z [%s] (%d)%%Z)",
+	cs := make([]string, len(d.calls))
+	for i, c := range d.calls {
+		cs[i] = kvsCoq(c)
+	}
+	sortKVs(d.real)
+	return fmt.Sprintf("(Obs %s (%d)%%Z %s (%d)%%Z %s (%d)%%Z %s (%d)%%Z [%s] (%d)%%Z [%s] %s (%d)%%Z)",
 		kvsCoq(d.des), dl, kvsCoq(d.dp), d.dplen, kvsCoq(d.pu), d.pulen, intsCoq(d.pd), d.pdlen,
-		strings.Join(gs, ";"), d.ub)
+		strings.Join(gs, ";"), d.ub, strings.Join(cs, ";"), kvsCoq(d.real), d.nerr)
 }
 func (d dump) short() string {
-	return fmt.Sprintf("des=%v dp=%v pu=%v pd=%v", d.des, d.dp, d.pu, d.pd)
+	if len(d.des)+len(d.dp) > 24 {
+		return fmt.Sprintf("|des|=%d |dp|=%d |pu|=%d |pd|=%d batches=%d", len(d.des), len(d.dp), len(d.pu), len(d.pd), len(d.calls))
+	}
+	return fmt.Sprintf("des=%v dp=%v pu=%v pd=%v real=%v nerr=%d", d.des, d.dp, d.pu, d.pd, d.real, d.nerr)
 }
 
 var actCoq = map[dt.IterAction]string{dt.IterActionNoOp: "ANoOp", dt.IterActionUpdateDataplane: "AUpd", dt.IterActionNoOpStopIteration: "AStop"}
 
 const nKeys = 6
 
+var errFail = errors.New("injected failure")
+var errNotExist = errors.New("does not exist")
+
+// fakeDP is the dataplane map behind the CachingMap: a Go map with injected failures; it records every call.
+type fakeDP struct {
+	m        map[int]int
+	failUpd  map[int]bool
+	failDel  map[int]bool
+	failLoad bool
+	upd      []string // (k,v,ok)
+	del      []string // (k,ok)   ok = nil or ErrNotExists
+}
+
+func (f *fakeDP) Update(k, v int) error {
+	if f.failUpd[k] {
+		f.upd = append(f.upd, fmt.Sprintf("(%d,%d,false)", k, v))
+		return errFail
+	}
+	f.m[k] = v
+	f.upd = append(f.upd, fmt.Sprintf("(%d,%d,true)", k, v))
+	return nil
+}
+func (f *fakeDP) Delete(k int) error {
+	if f.failDel[k] {
+		f.del = append(f.del, fmt.Sprintf("(%d,false)", k))
+		return errFail
+	}
+	f.del = append(f.del, fmt.Sprintf("(%d,true)", k))
+	if _, ok := f.m[k]; !ok {
+		return errNotExist
+	}
+	delete(f.m, k)
+	return nil
+}
+func (f *fakeDP) Load() (map[int]int, error) {
+	if f.failLoad {
+		return nil, errFail
+	}
+	c := map[int]int{}
+	for k, v := range f.m {
+		c[k] = v
+	}
+	return c, nil
+}
+func (f *fakeDP) ErrIsNotExists(err error) bool { return err == errNotExist }
+
+func nerrOf(err error) int {
+	if err == nil {
+		return 0
+	}
+	var es cachingmap.ErrSlice
+	if errors.As(err, &es) {
+		return len(es)
+	}
+	return 1
+}
+
+type out struct {
+	ops, outs, sample []string
+	tags              map[string]bool
+}
+
+func (o *out) add(op string, d dump) {
+	o.ops = append(o.ops, "(COp ("+op+"))")
+	o.outs = append(o.outs, d.coq())
+	if len(o.sample) < 12 {
+		if len(op) > 160 {
+			op = op[:160] + "..."
+		}
+		o.sample = append(o.sample, op+" -> "+d.short())
+	}
+}
+func (o *out) addC(op string, d dump) {
+	o.ops = append(o.ops, "("+op+")")
+	o.outs = append(o.outs, d.coq())
+	if len(o.sample) < 14 {
+		o.sample = append(o.sample, op+" -> "+d.short())
+	}
+}
+
+func callsCoq(batches [][]kv, resps [][2]int) string {
+	xs := make([]string, len(batches))
+	for i := range batches {
+		xs[i] = fmt.Sprintf("(%s,(%d%%nat,%v))", kvsCoq(batches[i]), resps[i][0], resps[i][1] == 1)
+	}
+	return "[" + strings.Join(xs, ";") + "]"
+}
+
+// batched iteration with random answers; returns the Coq op and the batches shown
+func doBatchUpd(t tracker, r *rng, o *out) (string, [][]kv, bool) {
+	var batches [][]kv
+	var resps [][2]int
+	ok := t.IterBatchUpd(func(ks, vs []int) (int, error) {
+		b := make([]kv, len(ks))
+		for i := range ks {
+			b[i] = kv{ks[i], vs[i]}
+		}
+		n, e := answer(r, len(ks), o)
+		batches = append(batches, b)
+		resps = append(resps, [2]int{n, e})
+		if e == 1 {
+			return n, errFail
+		}
+		return n, nil
+	})
+	return "IterBatchUpd " + callsCoq(batches, resps), batches, ok
+}
+func doBatchDel(t tracker, r *rng, o *out) (string, [][]kv, bool) {
+	var batches [][]kv
+	var resps [][2]int
+	ok := t.IterBatchDel(func(ks []int) (int, error) {
+		b := make([]kv, len(ks))
+		for i := range ks {
+			b[i] = kv{ks[i], 0}
+		}
+		n, e := answer(r, len(ks), o)
+		batches = append(batches, b)
+		resps = append(resps, [2]int{n, e})
+		if e == 1 {
+			return n, errFail
+		}
+		return n, nil
+	})
+	return "IterBatchDel " + callsCoq(batches, resps), batches, ok
+}
+
+// applyFn's answer for a batch of l items: how many leading items were applied, and whether the next one failed
+func answer(r *rng, l int, o *out) (int, int) {
+	switch x := r.intn(20); {
+	case x < 9:
+		return l, 0 // whole batch
+	case x < 14 && l > 0:
+		o.tags["batch-error"] = true
+		return r.intn(l), 1 // an item failed: applied < l
+	case x < 19 && l > 0:
+		o.tags["batch-partial"] = true
+		return 1 + r.intn(l), 0 // partial, no error
+	default:
+		o.tags["batch-zero"] = true
+		return 0, 0 // nothing applied, no error (the tail loop asks again)
+	}
+}
+
 func main() {
 	n := flag.Int("n", 100, "cases")
 	seed := flag.Uint64("seed", 1, "seed")
 	flag.Parse()
+	logrus.SetLevel(logrus.FatalLevel)
 	r := &rng{s: *seed}
 	enc := json.NewEncoder(os.Stdout)
 	univ := []int{0, 1, 2, 3, 4, 5, 6} // key 6 is never written: Get of an absent key
 	callsAfterStop := 0
 	for i := 0; i < *n; i++ {
-		var t tracker
+		o := &out{tags: map[string]bool{}}
 		var kind string
-		nVals := 3
-		switch r.intn(5) {
-		case 0, 1:
-			kind = "KExact"
-			t = newMapT(func(a, b int) bool { return a == b })
-		case 2, 3:
-			kind = "KCoarse"
-			nVals = 4
-			t = newMapT(func(a, b int) bool { return a/2 == b/2 })
+		nt := false
+		switch c := r.intn(40); {
+		case c == 0:
+			kind, nt = bigCase(r, o, univ)
+		case c < 9:
+			kind = "KCache"
+			nt = cacheCase(r, o, univ)
 		default:
-			kind = "KSet"
-			nVals = 1
-			t = newSetT()
+			kind, nt = trackerCase(r, o, univ, &callsAfterStop)
 		}
-		// stream "dup": iterators handed to ReplaceAllIter/ReplaceFromIter may produce a key twice
-		dupStream := r.intn(8) == 0
-		nk := 2 + r.intn(nKeys-1) // keys 0..nk-1 (small domains make collisions likely)
-		nops := 6 + r.intn(35)
-		var ops, outs, sample []string
-		tags := []string{"kind:" + kind}
-		if dupStream {
-			tags = append(tags, "stream:dup")
+		var tags []string
+		for t := range o.tags {
+			tags = append(tags, t)
 		}
-		sawUpd, sawDel, sawReplace, sawErr, sawBoth, sawDupKey, sawStop := false, false, false, false, false, false, false
-		for j := 0; j < nops; j++ {
-			k := r.intn(nk)
-			v := r.intn(nVals)
-			var op string
-			poisoned := false
-			switch c := r.intn(100); {
-			case c < 20:
-				t.DesSet(k, v)
-				op = fmt.Sprintf("DesSet %d %d", k, v)
-			case c < 30:
-				t.DesDel(k)
-				op = fmt.Sprintf("DesDel %d", k)
-			case c < 32:
-				t.DesDelAll()
-				op = "DesDelAll"
-			case c < 48:
-				t.DpSet(k, v)
-				op = fmt.Sprintf("DpSet %d %d", k, v)
-			case c < 56:
-				t.DpDel(k)
-				op = fmt.Sprintf("DpDel %d", k)
-			case c < 58:
-				t.DpDelAll()
-				op = "DpDelAll"
-			case c < 64:
-				// ReplaceAllMap with a Go map (its own runtime iteration order, no duplicate keys)
-				m := map[int]int{}
-				for kk := 0; kk < nk; kk++ {
-					if r.intn(2) == 0 {
-						m[kk] = r.intn(nVals)
-					}
-				}
-				t.ReplaceMap(m)
-				var xs []kv
-				for kk, vv := range m {
-					xs = append(xs, kv{kk, vv})
-				}
-				sortKVs(xs)
-				op = fmt.Sprintf("Replace %s false", kvsCoq(xs))
-				sawReplace = true
-			case c < 74:
-				// ReplaceAllIter with an explicit sequence, optionally failing after a prefix
-				perm := make([]int, nk)
-				for kk := range perm {
-					perm[kk] = kk
-				}
-				for a := nk - 1; a > 0; a-- {
-					b := r.intn(a + 1)
-					perm[a], perm[b] = perm[b], perm[a]
-				}
-				var xs []kv
-				for _, kk := range perm {
-					if r.intn(3) != 0 {
-						xs = append(xs, kv{kk, r.intn(nVals)})
-					}
-				}
-				if dupStream && len(xs) > 0 && r.intn(2) == 0 {
-					// the iterator shows some key again (possibly with another value), anywhere later
-					nd := 1 + r.intn(2)
-					for a := 0; a < nd; a++ {
-						src := xs[r.intn(len(xs))]
-						pos := r.intn(len(xs) + 1)
-						x := kv{src.k, r.intn(nVals)}
-						xs = append(xs[:pos], append([]kv{x}, xs[pos:]...)...)
-					}
-					sawDupKey = true
-				}
-				fail := r.intn(3) == 0
-				if fail && len(xs) > 0 {
-					xs = xs[:r.intn(len(xs)+1)] // fails part-way
-				}
-				err := t.ReplaceIter(xs, fail)
-				if (err != nil) != fail || (err != nil && !errors.Is(err, errIter)) {
-					poisoned = true
-				}
-				op = fmt.Sprintf("Replace %s %v", kvsCoq(xs), fail)
-				sawReplace = true
-				sawErr = sawErr || fail
-			case c < 88:
-				// PendingUpdates().Iter with a per-key answer table fixed before the iteration
-				var table [nKeys]dt.IterAction
-				allUpd := r.intn(4) == 0
-				for kk := range table {
-					switch x := r.intn(20); {
-					case allUpd || x < 11:
-						table[kk] = dt.IterActionUpdateDataplane
-					case x < 18:
-						table[kk] = dt.IterActionNoOp
-					default:
-						table[kk] = dt.IterActionNoOpStopIteration
-					}
-				}
-				var tr []string
-				stopped := false
-				t.IterUpd(func(k, v int) dt.IterAction {
-					a := table[k]
-					tr = append(tr, fmt.Sprintf("(%d,%d,%s)", k, v, actCoq[a]))
-					if stopped {
-						callsAfterStop++
-					}
-					if a == dt.IterActionNoOpStopIteration {
-						stopped, sawStop = true, true
-					}
-					if a == dt.IterActionUpdateDataplane {
-						sawUpd = true
-					}
-					return a
-				})
-				op = "IterUpd [" + strings.Join(tr, ";") + "]"
-			default:
-				var table [nKeys]dt.IterAction
-				allUpd := r.intn(4) == 0
-				for kk := range table {
-					switch x := r.intn(20); {
-					case allUpd || x < 11:
-						table[kk] = dt.IterActionUpdateDataplane
-					case x < 18:
-						table[kk] = dt.IterActionNoOp
-					default:
-						table[kk] = dt.IterActionNoOpStopIteration
-					}
-				}
-				var tr []string
-				stopped := false
-				t.IterDel(func(k int) dt.IterAction {
-					a := table[k]
-					tr = append(tr, fmt.Sprintf("(%d,%s)", k, actCoq[a]))
-					if stopped {
-						callsAfterStop++
-					}
-					if a == dt.IterActionNoOpStopIteration {
-						stopped, sawStop = true, true
-					}
-					if a == dt.IterActionUpdateDataplane {
-						sawDel = true
-					}
-					return a
-				})
-				op = "IterDel [" + strings.Join(tr, ";") + "]"
-			}
-			d := t.Dump(univ)
-			d.poisoned = poisoned
-			if len(d.pu) > 0 && len(d.pd) > 0 {
-				sawBoth = true
-			}
-			ops = append(ops, "("+op+")")
-			outs = append(outs, d.coq())
-			if len(sample) < 12 {
-				sample = append(sample, op+" -> "+d.short())
-			}
-		}
-		for _, x := range []struct {
-			b bool
-			s string
-		}{{sawUpd, "iter-applied-update"}, {sawDel, "iter-applied-deletion"}, {sawReplace, "replace"}, {sawErr, "replace-error"},
-			{sawDupKey, "replace-duplicate-key"}, {sawStop, "stop-requested"}, {sawBoth, "updates-and-deletions-pending"}} {
-			if x.b {
-				tags = append(tags, x.s)
-			}
-		}
+		sort.Strings(tags)
+		tags = append([]string{"kind:" + kind}, tags...)
 		coq := fmt.Sprintf("{| c_kind := %s; c_univ := %s; c_ops := [%s]; c_outs := [%s] |}", kind, intsCoq(univ),
-			strings.Join(ops, ";"), strings.Join(outs, ";"))
-		_ = enc.Encode(line{Coq: coq, NT: (sawUpd || sawDel) && sawReplace && sawBoth,
-			Key:    kind + "|" + strings.Join(ops, ";"),
-			Sample: map[string]any{"kind": kind, "trace": sample}, Tags: tags})
+			strings.Join(o.ops, ";"), strings.Join(o.outs, ";"))
+		_ = enc.Encode(line{Coq: coq, NT: nt, Key: kind + "|" + strings.Join(o.ops, ";"),
+			Sample: map[string]any{"kind": kind, "trace": o.sample}, Tags: tags})
 	}
 	_ = enc.Encode(map[string]any{"stats": map[string]any{
 		"callbacks_invoked_after_IterActionNoOpStopIteration": callsAfterStop,
 		"note": "informational: >0 means `break` inside the switch of Iter does not stop the range loop"}})
+}
+
+// bigCase: more keys than the batch size (128) so that the first loop of IterBatched calls applyFn mid-range.
+func bigCase(r *rng, o *out, univ []int) (string, bool) {
+	kind := "KExact"
+	nVals := 3
+	t := tracker(newMapT(func(a, b int) bool { return a == b }))
+	if r.intn(2) == 0 {
+		kind, nVals = "KCoarse", 4
+		t = newMapT(func(a, b int) bool { return a/2 == b/2 })
+	}
+	o.tags["stream:big"] = true
+	nk := 130 + r.intn(200)
+	setMany := func(p int) {
+		var xs []kv
+		for k := 0; k < nk; k++ {
+			if r.intn(100) < p {
+				xs = append(xs, kv{k, r.intn(nVals)})
+			}
+		}
+		for _, x := range xs {
+			t.DesSet(x.k, x.v)
+		}
+		o.add("DesSetMany "+kvsCoq(xs), t.Dump(univ))
+	}
+	replace := func(p int) {
+		m := map[int]int{}
+		for k := 0; k < nk+40; k++ {
+			if r.intn(100) < p {
+				m[k] = r.intn(nVals)
+			}
+		}
+		t.ReplaceMap(m)
+		var xs []kv
+		for k, v := range m {
+			xs = append(xs, kv{k, v})
+		}
+		sortKVs(xs)
+		o.add(fmt.Sprintf("Replace %s false", kvsCoq(xs)), t.Dump(univ))
+	}
+	setMany(85)
+	replace(45)
+	for j := 0; j < 2+r.intn(3); j++ {
+		switch r.intn(5) {
+		case 0:
+			setMany(30)
+		case 1:
+			replace(60)
+		case 2, 3:
+			op, b, _ := doBatchUpd(t, r, o)
+			d := t.Dump(univ)
+			d.calls = b
+			o.add(op, d)
+		default:
+			op, b, _ := doBatchDel(t, r, o)
+			d := t.Dump(univ)
+			d.calls = b
+			o.add(op, d)
+		}
+	}
+	op, b, _ := doBatchUpd(t, r, o)
+	d := t.Dump(univ)
+	d.calls = b
+	o.add(op, d)
+	op, b, _ = doBatchDel(t, r, o)
+	d = t.Dump(univ)
+	d.calls = b
+	o.add(op, d)
+	return kind, true
+}
+
+// cacheCase: the real CachingMap[int,int] over fakeDP.
+func cacheCase(r *rng, o *out, univ []int) bool {
+	f := &fakeDP{m: map[int]int{}}
+	cm := cachingmap.New[int, int]("verif", f)
+	tr := cm.VerifTracker()
+	view := &mapT{des: tr.Desired(), dp: tr.Dataplane(), pu: tr.PendingUpdates(), pd: tr.PendingDeletions()}
+	nk := 2 + r.intn(nKeys-1)
+	nops := 6 + r.intn(30)
+	sawApplyOK, sawApplyFail, sawExt := false, false, false
+	inject := func() {
+		f.failUpd, f.failDel, f.failLoad = map[int]bool{}, map[int]bool{}, false
+		f.upd, f.del = nil, nil
+		if r.intn(2) == 0 {
+			for k := 0; k < nk; k++ {
+				if r.intn(4) == 0 {
+					f.failUpd[k] = true
+				}
+				if r.intn(4) == 0 {
+					f.failDel[k] = true
+				}
+			}
+		}
+		f.failLoad = r.intn(7) == 0
+	}
+	for j := 0; j < nops; j++ {
+		k, v := r.intn(nk), r.intn(3)
+		var op string
+		nerr := 0
+		switch c := r.intn(100); {
+		case c < 24:
+			cm.Desired().Set(k, v)
+			op = fmt.Sprintf("COp (DesSet %d %d)", k, v)
+		case c < 36:
+			cm.Desired().Delete(k)
+			op = fmt.Sprintf("COp (DesDel %d)", k)
+		case c < 39:
+			cm.Desired().DeleteAll()
+			op = "COp DesDelAll"
+		case c < 50:
+			f.m[k] = v
+			op = fmt.Sprintf("ExtSet %d %d", k, v)
+			sawExt = true
+		case c < 57:
+			delete(f.m, k)
+			op = fmt.Sprintf("ExtDel %d", k)
+			sawExt = true
+		case c < 65:
+			inject()
+			f.failLoad = r.intn(4) == 0
+			nerr = nerrOf(cm.LoadCacheFromDataplane())
+			op = fmt.Sprintf("CLoad %v", f.failLoad)
+		case c < 76:
+			inject()
+			nerr = nerrOf(cm.ApplyUpdatesOnly())
+			op = fmt.Sprintf("CUpd %v [%s]", f.failLoad, strings.Join(f.upd, ";"))
+		case c < 86:
+			inject()
+			nerr = nerrOf(cm.ApplyDeletionsOnly())
+			op = fmt.Sprintf("CDel %v [%s]", f.failLoad, strings.Join(f.del, ";"))
+		default:
+			inject()
+			nerr = nerrOf(cm.ApplyAllChanges())
+			op = fmt.Sprintf("CAll %v [%s] [%s]", f.failLoad, strings.Join(f.del, ";"), strings.Join(f.upd, ";"))
+			if nerr == 0 {
+				sawApplyOK = true
+				o.tags["apply-all-ok"] = true
+			} else {
+				sawApplyFail = true
+				o.tags["apply-all-failed"] = true
+			}
+		}
+		if nerr > 0 {
+			o.tags["cache-op-error"] = true
+		}
+		d := view.Dump(univ)
+		d.nerr = nerr
+		for kk, vv := range f.m {
+			d.real = append(d.real, kv{kk, vv})
+		}
+		o.addC(op, d)
+	}
+	return sawApplyOK && sawApplyFail && sawExt
+}
+
+func trackerCase(r *rng, o *out, univ []int, callsAfterStop *int) (string, bool) {
+	var t tracker
+	var kind string
+	nVals := 3
+	switch r.intn(5) {
+	case 0, 1:
+		kind = "KExact"
+		t = newMapT(func(a, b int) bool { return a == b })
+	case 2, 3:
+		kind = "KCoarse"
+		nVals = 4
+		t = newMapT(func(a, b int) bool { return a/2 == b/2 })
+	default:
+		kind = "KSet"
+		nVals = 1
+		t = newSetT()
+	}
+	// stream "dup": iterators handed to ReplaceAllIter/ReplaceFromIter may produce a key twice
+	dupStream := r.intn(8) == 0
+	nk := 2 + r.intn(nKeys-1) // keys 0..nk-1 (small domains make collisions likely)
+	nops := 6 + r.intn(35)
+	if dupStream {
+		o.tags["stream:dup"] = true
+	}
+	sawUpd, sawDel, sawReplace, sawBoth := false, false, false, false
+	for j := 0; j < nops; j++ {
+		k := r.intn(nk)
+		v := r.intn(nVals)
+		var op string
+		var shown [][]kv
+		poisoned := false
+		switch c := r.intn(100); {
+		case c < 18:
+			t.DesSet(k, v)
+			op = fmt.Sprintf("DesSet %d %d", k, v)
+		case c < 27:
+			t.DesDel(k)
+			op = fmt.Sprintf("DesDel %d", k)
+		case c < 29:
+			t.DesDelAll()
+			op = "DesDelAll"
+		case c < 44:
+			t.DpSet(k, v)
+			op = fmt.Sprintf("DpSet %d %d", k, v)
+		case c < 51:
+			t.DpDel(k)
+			op = fmt.Sprintf("DpDel %d", k)
+		case c < 53:
+			t.DpDelAll()
+			op = "DpDelAll"
+		case c < 59:
+			// ReplaceAllMap with a Go map (its own runtime iteration order, no duplicate keys)
+			m := map[int]int{}
+			for kk := 0; kk < nk; kk++ {
+				if r.intn(2) == 0 {
+					m[kk] = r.intn(nVals)
+				}
+			}
+			t.ReplaceMap(m)
+			var xs []kv
+			for kk, vv := range m {
+				xs = append(xs, kv{kk, vv})
+			}
+			sortKVs(xs)
+			op = fmt.Sprintf("Replace %s false", kvsCoq(xs))
+			sawReplace = true
+		case c < 68:
+			// ReplaceAllIter with an explicit sequence, optionally failing after a prefix
+			perm := make([]int, nk)
+			for kk := range perm {
+				perm[kk] = kk
+			}
+			for a := nk - 1; a > 0; a-- {
+				b := r.intn(a + 1)
+				perm[a], perm[b] = perm[b], perm[a]
+			}
+			var xs []kv
+			for _, kk := range perm {
+				if r.intn(3) != 0 {
+					xs = append(xs, kv{kk, r.intn(nVals)})
+				}
+			}
+			if dupStream && len(xs) > 0 && r.intn(2) == 0 {
+				// the iterator shows some key again (possibly with another value), anywhere later
+				nd := 1 + r.intn(2)
+				for a := 0; a < nd; a++ {
+					src := xs[r.intn(len(xs))]
+					pos := r.intn(len(xs) + 1)
+					x := kv{src.k, r.intn(nVals)}
+					xs = append(xs[:pos], append([]kv{x}, xs[pos:]...)...)
+				}
+				o.tags["replace-duplicate-key"] = true
+			}
+			fail := r.intn(3) == 0
+			if fail && len(xs) > 0 {
+				xs = xs[:r.intn(len(xs)+1)] // fails part-way
+			}
+			err := t.ReplaceIter(xs, fail)
+			if (err != nil) != fail || (err != nil && !errors.Is(err, errIter)) {
+				poisoned = true
+			}
+			op = fmt.Sprintf("Replace %s %v", kvsCoq(xs), fail)
+			sawReplace = true
+			if fail {
+				o.tags["replace-error"] = true
+			}
+		case c < 80:
+			// PendingUpdates().Iter with a per-key answer table fixed before the iteration
+			table := answerTable(r)
+			var tr []string
+			stopped := false
+			t.IterUpd(func(k, v int) dt.IterAction {
+				a := table[k]
+				tr = append(tr, fmt.Sprintf("(%d,%d,%s)", k, v, actCoq[a]))
+				if stopped {
+					*callsAfterStop++
+				}
+				if a == dt.IterActionNoOpStopIteration {
+					stopped = true
+					o.tags["stop-requested"] = true
+				}
+				if a == dt.IterActionUpdateDataplane {
+					sawUpd = true
+				}
+				return a
+			})
+			op = "IterUpd [" + strings.Join(tr, ";") + "]"
+		case c < 90:
+			table := answerTable(r)
+			var tr []string
+			stopped := false
+			t.IterDel(func(k int) dt.IterAction {
+				a := table[k]
+				tr = append(tr, fmt.Sprintf("(%d,%s)", k, actCoq[a]))
+				if stopped {
+					*callsAfterStop++
+				}
+				if a == dt.IterActionNoOpStopIteration {
+					stopped = true
+					o.tags["stop-requested"] = true
+				}
+				if a == dt.IterActionUpdateDataplane {
+					sawDel = true
+				}
+				return a
+			})
+			op = "IterDel [" + strings.Join(tr, ";") + "]"
+		case c < 95:
+			var ok bool
+			op, shown, ok = doBatchUpd(t, r, o)
+			if !ok {
+				t.DesSet(k, v)
+				op = fmt.Sprintf("DesSet %d %d", k, v)
+			} else {
+				o.tags["iter-batched"] = true
+			}
+		default:
+			var ok bool
+			op, shown, ok = doBatchDel(t, r, o)
+			if !ok {
+				t.DesDel(k)
+				op = fmt.Sprintf("DesDel %d", k)
+			} else {
+				o.tags["iter-batched"] = true
+			}
+		}
+		d := t.Dump(univ)
+		d.poisoned = poisoned
+		d.calls = shown
+		if len(d.pu) > 0 && len(d.pd) > 0 {
+			sawBoth = true
+		}
+		o.add(op, d)
+	}
+	for _, x := range []struct {
+		b bool
+		s string
+	}{{sawUpd, "iter-applied-update"}, {sawDel, "iter-applied-deletion"}, {sawReplace, "replace"}, {sawBoth, "updates-and-deletions-pending"}} {
+		if x.b {
+			o.tags[x.s] = true
+		}
+	}
+	return kind, (sawUpd || sawDel) && sawReplace && sawBoth
+}
+
+func answerTable(r *rng) [nKeys]dt.IterAction {
+	var table [nKeys]dt.IterAction
+	allUpd := r.intn(4) == 0
+	for kk := range table {
+		switch x := r.intn(20); {
+		case allUpd || x < 11:
+			table[kk] = dt.IterActionUpdateDataplane
+		case x < 18:
+			table[kk] = dt.IterActionNoOp
+		default:
+			table[kk] = dt.IterActionNoOpStopIteration
+		}
+	}
+	return table
 }
